@@ -69,12 +69,12 @@ func CoqMeta(op Op) string {
 
 // CoqHop prints one history step with its observation as a term of type hop (Corr/StorCorr.v).
 // thr: retention threshold (unix) in force for a put, or nil.
-func CoqHop(op Op, res OpResult, thr *int64) string {
+func CoqHop(op Op, res OpResult) string {
 	switch op.Kind {
 	case "put":
 		t := "None"
-		if thr != nil {
-			t = lib.Some(lib.Z(*thr))
+		if op.Thr != 0 {
+			t = lib.Some(lib.Z(op.Thr))
 		}
 		return "(HPut " + CoqSid(op.Name) + " " + lib.Z(op.From) + " " + lib.Z(op.Until) + " " +
 			treeu.CoqStacks(op.Stacks) + " " + CoqMeta(op) + " " + t + " " + lib.Bool(res.Err == "") + ")"
@@ -84,6 +84,8 @@ func CoqHop(op Op, res OpResult, thr *int64) string {
 		return "(HDelete " + CoqSid(op.Name) + ")"
 	case "retention":
 		return "(HRetention " + lib.Z(op.From) + ")"
+	case "evict", "restart":
+		return "HNop"
 	}
 	return ""
 }
